@@ -10,13 +10,16 @@ import (
 // RecoverHandler 返回一个异常捕获中间件。
 func RecoverHandler(next http.Handler) http.Handler {
 	return http.HandlerFunc(func(w http.ResponseWriter, r *http.Request) {
+		// panic(nil) 时 recover() 返回 nil，不能只靠它的返回值判断是否发生了 panic
+		finished := false
 		defer func() {
-			if result := recover(); result != nil {
+			if result := recover(); result != nil || !finished {
 				internal.Error(r, fmt.Sprintf("%v\n%s", result, debug.Stack()))
 				w.WriteHeader(http.StatusInternalServerError)
 			}
 		}()
 
 		next.ServeHTTP(w, r)
+		finished = true
 	})
 }
